@@ -7,6 +7,7 @@ import (
 	"go/types"
 	"os"
 	"path/filepath"
+	"regexp"
 	"sort"
 	"strings"
 
@@ -98,6 +99,9 @@ type Engine struct {
 	headStates   map[string]*State
 	UsedAssumed  map[string]bool
 	foreignGlobals map[string]bool
+	closedFields, sentFields map[string]bool
+	vaMemo map[*smt.Term][]*smt.Term
+	kindIdx map[string]int
 
 	Obligs []*Obligation
 	Errors []string // tool errors
@@ -108,7 +112,7 @@ type Engine struct {
 func NewEngine(cfg Config) *Engine {
 	return &Engine{Cfg: cfg, C: smt.NewCtx(), Contracts: map[string]*FnContract{}, ByFn: map[*ssa.Function]*FnContract{},
 		Uninterp: map[*ssa.Function]bool{}, GhostAcc: map[*ssa.Function]bool{}, Overlay: map[string][]byte{}, GenSrc: map[string]string{},
-		strLits: map[string]*smt.Term{}, globalsSeen: map[string]*smt.Term{}, Stats: map[string]int{}, headStates: map[string]*State{}, UsedAssumed: map[string]bool{}, foreignGlobals: map[string]bool{}}
+		strLits: map[string]*smt.Term{}, globalsSeen: map[string]*smt.Term{}, Stats: map[string]int{}, headStates: map[string]*State{}, UsedAssumed: map[string]bool{}, foreignGlobals: map[string]bool{}, vaMemo: map[*smt.Term][]*smt.Term{}, kindIdx: map[string]int{}}
 }
 
 func (e *Engine) loadPkgs() (map[string]*packages.Package, []*packages.Package, error) {
@@ -625,6 +629,8 @@ func (e *Engine) generate() error {
 						fmt.Fprintf(&body, "gvcModElems(%s); ", it.Expr)
 					case "map":
 						fmt.Fprintf(&body, "gvcModMap(%s); ", it.Expr)
+					case "chan":
+						fmt.Fprintf(&body, "gvcModChan(%s); ", it.Expr)
 					}
 				}
 				fmt.Fprintf(&g.body, "%sfunc %s(%s) { %s}\n\n", hdr, c.GenName, sb.String(), body.String())
@@ -675,6 +681,20 @@ func (e *Engine) generate() error {
 			return fmt.Errorf("%s:%d: duplicate contract for %s (first at %s:%d)", b.File, b.Line, fc.Key, old.B.File, old.B.Line)
 		}
 		e.Contracts[fc.Key] = fc
+	}
+	// packages referenced by name inside clause expressions
+	pkgRef := regexp.MustCompile(`\b([a-z][a-z0-9]*)\.[A-Za-z_]`)
+	for _, g := range gens {
+		body := g.body.String()
+		for _, m := range pkgRef.FindAllStringSubmatch(body, -1) {
+			nm := m[1]
+			if p := e.findPkgByName(nm); p != nil && p.Name() == nm && p.Name() != g.pkgName {
+				if _, ok := g.imports[p.Path()]; !ok {
+					// only if no local identifier shadows it in a trivial way: accept
+					g.imports[p.Path()] = p.Name()
+				}
+			}
+		}
 	}
 	for path, g := range gens {
 		var sb strings.Builder
@@ -973,4 +993,15 @@ func (e *Engine) toolErr(format string, a ...interface{}) {
 		}
 	}
 	e.Errors = append(e.Errors, msg)
+}
+
+// kindConst returns a distinct constant per name (type tags, region kinds, ghost
+// accessor kinds): distinctness is by construction, not by an axiom.
+func (e *Engine) kindConst(name string) *smt.Term {
+	i, ok := e.kindIdx[name]
+	if !ok {
+		i = len(e.kindIdx) + 1
+		e.kindIdx[name] = i
+	}
+	return e.C.BVC(64, uint64(i))
 }
